@@ -79,5 +79,35 @@ def Report.failing (r : Report) : List String :=
   (if r.auxDisjoint then [] else ["aux-name-collision"]) ++
   (if r.finite then [] else ["non-finite-output"])
 
+/-- every variable the source model mentions (objective, both sides of every constraint; the right-hand side of a
+logic assertion is a placeholder and is not read). -/
+def occurring (m : Model α) : List String :=
+  expVars m.objective ++ m.constraints.flatMap fun c => expVars c.lhs ++ (if c.isAssert then [] else expVars c.rhs)
+
+/-- … has a column in the compiled model (independent of the usage counters of the source domain). -/
+def occurringPresent (m : Model α) (lm : LinModel α) : Bool :=
+  (occurring m).all fun v => lm.vars.contains v && lm.domain.any (·.name == v)
+
+/-- every literal of the source is a finite number (the hypothesis of the finiteness and ordering theorems). -/
+def litsFinite : Exp α → Bool
+  | .num v => isFinite v
+  | .var _ => true
+  | .abs e | .not e | .un _ e => litsFinite e
+  | .min es | .max es | .and es | .or es => es.attach.all fun ⟨e, _⟩ => litsFinite e
+  | .xor a b | .implies a b | .iff a b | .bin _ a b => litsFinite a && litsFinite b
+
+def modelLitsFinite (m : Model α) : Bool :=
+  litsFinite m.objective && m.constraints.all fun c => litsFinite c.lhs && litsFinite c.rhs
+
+def typeOrdered : VarType α → Bool
+  | .bool => true
+  | .int lo hi => decide (lo ≤ hi)
+  | .real lo hi | .nnreal lo hi => le lo hi
+
+/-- every published range is ordered (`lower ≤ upper`, so no NaN end). Claimed for sources with finite literals
+and ordered declared ranges (`Props.C08.compile_domains_ordered`). -/
+def domainOrdered (m : Model α) (lm : LinModel α) : Bool :=
+  !(modelLitsFinite m && m.domain.all fun d => typeOrdered d.ty) || lm.domain.all fun d => typeOrdered d.ty
+
 end WF
 end Rooc
